@@ -1,17 +1,380 @@
-//! C09 — stub (monitor not written yet)
-use serde_json::Value;
+//! C09 — the builder is faithful and serialisation loses nothing.
+//!
+//! Model-based: every history is run on the real builder and on R7 in lock-step; the parser is
+//! used as the inverse of Display; adjacent calls on different fields are swapped and must
+//! give the same result.
 
-use super::Fail;
-use crate::obs::{Ctx, Tier};
+use std::fmt::Debug;
+use std::str::FromStr;
 
-pub const RULE: &str = "";
+use purl::{PackageType, PurlShape};
+use serde_json::{json, Value};
 
-pub fn requirements(_tier: Tier) -> Vec<(&'static str, u64)> {
-    vec![("not-implemented", 1)]
+use super::{str_field, Fail};
+use crate::exec::{self, run_hist};
+use crate::hist::{self, expected_build, sig_ns, sig_sub, BModel, Call, Hist, SetterExpect};
+use crate::obs::{self, Ctx, Out, Snap, Tier};
+use crate::rng::fnv;
+use crate::shrink::shrink_vec;
+
+pub const RULE: &str = "a case is one builder history (initial type and name + calls) for one type parameter; non-trivial = build() succeeds with at least one optional field set or a name the type's rule changes, or build() is refused for a modelled reason; distinct by hash of (type parameter, history)";
+
+pub fn requirements(tier: Tier) -> Vec<(&'static str, u64)> {
+    let q = tier == Tier::Quick;
+    vec![
+        ("histories:String", if q { 200_000 } else { 2_000_000 }),
+        ("histories:PackageType", if q { 200_000 } else { 2_000_000 }),
+        ("build-ok", 50_000),
+        ("build-refused", 10_000),
+        ("setter-refused", 1_000),
+        ("reparse-checked", 50_000),
+        ("commutation-pairs-checked", 50_000),
+        ("roundtrip-field-with:/", 100),
+        ("roundtrip-field-with:@", 100),
+        ("roundtrip-field-with:?", 100),
+        ("roundtrip-field-with:#", 100),
+        ("roundtrip-field-with:&", 100),
+        ("roundtrip-field-with:=", 100),
+        ("roundtrip-field-with:%", 100),
+        ("roundtrip-field-with:+", 100),
+        ("roundtrip-field-with:space", 100),
+    ]
 }
 
-pub fn run(_ctx: &mut Ctx) {}
+/// Result of a history as an observer sees it: Ok(accessors, canonical) or Err(name).
+fn outcome<'a, T>(h: &'a Hist, mk: &dyn Fn(&'a str) -> Option<T>) -> Option<Out<(Snap, String)>>
+where
+    T: PurlShape + Clone,
+    T::Error: Debug,
+{
+    let run = run_hist(h, mk)?;
+    if let Some(p) = run.panic {
+        return Some(Out::Panic(p));
+    }
+    Some(match obs::build(run.builder?) {
+        Out::Ok(p) => match obs::show(&p) {
+            Out::Ok(c) => Out::Ok((Snap::of(&p), c)),
+            Out::Err(e) => Out::Err(e),
+            Out::Panic(m) => Out::Panic(m),
+        },
+        Out::Err(e) => Out::Err(e),
+        Out::Panic(m) => Out::Panic(m),
+    })
+}
 
-pub fn replay(_monitor: &str, _case: &Value) -> Result<Option<Fail>, String> {
-    Err("not implemented".into())
+pub struct Judged {
+    pub ok: bool,
+    pub refused: bool,
+    pub setter_refused: u32,
+    pub reparsed: bool,
+    pub commuted: u32,
+    pub fields: Vec<String>,
+}
+
+pub fn judge<'a, T>(h: &'a Hist, typed: bool, mk: &dyn Fn(&'a str) -> Option<T>, commute: bool) -> (Option<Judged>, Option<Fail>)
+where
+    T: PurlShape + Clone + FromStr,
+    <T as PurlShape>::Error: From<<T as FromStr>::Err> + Debug,
+{
+    // model
+    let mut m = BModel::new(&h.ty, &h.name);
+    let mut expects: Vec<(usize, SetterExpect)> = Vec::new();
+    for (i, c) in h.calls.iter().enumerate() {
+        let e = m.apply(c);
+        if e != SetterExpect::Infallible {
+            expects.push((i, e));
+        }
+    }
+    // real
+    let Some(run) = run_hist(h, mk) else { return (None, None) };
+    if let Some(p) = run.panic {
+        return (None, Some(Fail::tagged("setter-panicked", p.clone(), format!("a builder call panicked: {p}"))));
+    }
+    let mut j = Judged { ok: false, refused: false, setter_refused: 0, reparsed: false, commuted: 0, fields: vec![] };
+    for ((i, real), (i2, exp)) in run.setters.iter().zip(expects.iter()) {
+        debug_assert_eq!(i, i2);
+        let call = &h.calls[*i];
+        match (real, exp) {
+            (Out::Ok(()), SetterExpect::Ok) => {},
+            (Out::Err(e), SetterExpect::Err(want)) => {
+                j.setter_refused += 1;
+                if e != want {
+                    return (None, Some(Fail::tagged("setter-wrong-error", format!("{e} for {want}"), format!("call #{i} {call:?} returned Err({e}); expected Err({want})"))));
+                }
+            },
+            (Out::Ok(()), SetterExpect::Err(want)) => {
+                return (None, Some(Fail::tagged("setter-accepted-invalid", call_class(call), format!("call #{i} {call:?} returned Ok; the model says Err({want})"))));
+            },
+            (Out::Err(e), SetterExpect::Ok) => {
+                return (None, Some(Fail::tagged("setter-refused-valid", call_class(call), format!("call #{i} {call:?} returned Err({e}); the model says it is valid"))));
+            },
+            _ => {},
+        }
+    }
+    let Some(b) = run.builder else { return (None, None) };
+    let built = obs::build(b);
+    let want = expected_build(&m, typed);
+    match (&built, &want) {
+        (Out::Panic(p), _) => return (None, Some(Fail::tagged("build-panicked", p.clone(), format!("build() panicked: {p}")))),
+        (Out::Ok(p), Err(errs)) => {
+            return (
+                None,
+                Some(Fail::tagged("build-accepted-invalid", errs.join("|"), format!("build() succeeded with {:?} although the final state {m:?} must be refused ({})", Snap::of(p), errs.join(" or ")))),
+            );
+        },
+        (Out::Err(e), Ok(_)) => {
+            return (None, Some(Fail::tagged("build-refused-valid", e.clone(), format!("build() returned Err({e}) although the final state {m:?} is valid"))));
+        },
+        (Out::Err(e), Err(errs)) => {
+            j.refused = true;
+            if !errs.contains(e) {
+                return (None, Some(Fail::tagged("build-wrong-error", format!("{e} for {}", errs.join("|")), format!("build() returned Err({e}); the defects present in {m:?} are {errs:?}"))));
+            }
+        },
+        (Out::Ok(p), Ok(w)) => {
+            j.ok = true;
+            let snap = Snap::of(p);
+            let field = |name: &str, got: String, wantv: String| -> Option<Fail> {
+                if got != wantv {
+                    Some(Fail::tagged("accessor-mismatch", name.to_string(), format!("after {:?} the {name} is {got} but was last set to {wantv}", h.calls)))
+                } else {
+                    None
+                }
+            };
+            let checks = [
+                field("type", snap.ty.clone(), w.ty.clone()),
+                field("namespace", format!("{:?}", snap.ns.as_deref().map(sig_ns).unwrap_or_default()), format!("{:?}", w.ns_segs)),
+                field("name", format!("{:?}", snap.name), format!("{:?}", w.name)),
+                field("version", format!("{:?}", snap.ver), format!("{:?}", w.ver)),
+                field("qualifiers", format!("{:?}", snap.quals), format!("{:?}", w.quals)),
+                field("subpath", format!("{:?}", snap.sub.as_deref().map(sig_sub).unwrap_or_default()), format!("{:?}", w.sub_segs)),
+            ];
+            if let Some(f) = checks.into_iter().flatten().next() {
+                return (None, Some(f));
+            }
+            // serialisation loses nothing
+            let canon = match obs::show(p) {
+                Out::Ok(c) => c,
+                o => return (None, Some(Fail::new("format-panicked", o.kind()))),
+            };
+            match obs::parse::<T>(&canon) {
+                Out::Ok(q) => {
+                    j.reparsed = true;
+                    let qs = Snap::of(&q);
+                    let back = [
+                        ("type", qs.ty.clone() == w.ty),
+                        ("namespace", qs.ns.as_deref().map(sig_ns).unwrap_or_default() == w.ns_segs),
+                        ("name", qs.name == w.name),
+                        ("version", qs.ver == w.ver),
+                        ("qualifiers", qs.quals == w.quals),
+                        ("subpath", qs.sub.as_deref().map(sig_sub).unwrap_or_default() == w.sub_segs),
+                    ];
+                    if let Some((name, _)) = back.iter().find(|(_, ok)| !ok) {
+                        return (
+                            None,
+                            Some(Fail::tagged("reparse-field-differs", name.to_string(), format!("built {snap:?} prints as {canon:?}, which parses back as {qs:?}: {name} was lost, merged or reinterpreted"))),
+                        );
+                    }
+                },
+                o => {
+                    return (
+                        None,
+                        Some(Fail::tagged("reparse-rejected", o.kind(), format!("built {snap:?} prints as {canon:?}, which the parser answers with {}", o.kind()))),
+                    );
+                },
+            }
+            // which separator characters made the round trip inside a field?
+            let mut all = String::new();
+            all.push_str(&w.name);
+            all.push_str(&w.ns_segs.concat());
+            all.push_str(w.ver.as_deref().unwrap_or(""));
+            for (_, v) in &w.quals {
+                all.push_str(v);
+            }
+            all.push_str(&w.sub_segs.concat());
+            for (c, n) in [('/', "/"), ('@', "@"), ('?', "?"), ('#', "#"), ('&', "&"), ('=', "="), ('%', "%"), ('+', "+"), (' ', "space")] {
+                if all.contains(c) {
+                    j.fields.push(n.to_string());
+                }
+            }
+        },
+    }
+    // calls on different fields commute
+    if commute {
+        let base = outcome(h, mk);
+        for i in 0..h.calls.len().saturating_sub(1) {
+            if h.calls[i] == h.calls[i + 1] || !h.calls[i].commutes_with(&h.calls[i + 1]) {
+                continue;
+            }
+            let mut calls = h.calls.clone();
+            calls.swap(i, i + 1);
+            let hs = Hist { ty: h.ty.clone(), name: h.name.clone(), calls };
+            // the swapped history borrows from a local, so run it with owned type values
+            let swapped = outcome_owned::<T>(&hs, typed);
+            j.commuted += 1;
+            if swapped != base.as_ref().map(owned_out) {
+                return (
+                    None,
+                    Some(Fail::tagged(
+                        "not-commutative",
+                        format!("{}/{}", call_class(&h.calls[i]), call_class(&h.calls[i + 1])),
+                        format!("swapping calls #{i} {:?} and #{} {:?} (different fields) changes the result from {:?} to {:?}", h.calls[i], i + 1, h.calls[i + 1], base, swapped),
+                    )),
+                );
+            }
+        }
+    }
+    (Some(j), None)
+}
+
+fn owned_out(o: &Out<(Snap, String)>) -> Out<(Snap, String)> {
+    o.clone()
+}
+
+/// Same as `outcome`, but always with an owning type parameter of the same family.
+fn outcome_owned<T>(h: &Hist, typed: bool) -> Option<Out<(Snap, String)>> {
+    if typed {
+        outcome::<PackageType>(h, &exec::mk_typed)
+    } else {
+        outcome::<String>(h, &exec::mk_string)
+    }
+}
+
+fn call_class(c: &Call) -> String {
+    let s = format!("{c:?}");
+    s.split('(').next().unwrap_or("").to_string()
+}
+
+pub fn judge_dyn(tp: &str, h: &Hist, commute: bool) -> (Option<Judged>, Option<Fail>) {
+    match tp {
+        "String" => judge::<String>(h, false, &exec::mk_string, commute),
+        "PackageType" => judge::<PackageType>(h, true, &exec::mk_typed, commute),
+        _ => (None, None),
+    }
+}
+
+fn case(ctx: &mut Ctx, tp: &'static str, h: &Hist, commute: bool) {
+    ctx.st.evaluations += 1;
+    ctx.st.count(if tp == "String" { "histories:String" } else { "histories:PackageType" });
+    let (j, f) = judge_dyn(tp, h, commute);
+    if let Some(j) = j {
+        if j.ok {
+            ctx.st.count("build-ok");
+        }
+        if j.refused {
+            ctx.st.count("build-refused");
+        }
+        if j.reparsed {
+            ctx.st.count("reparse-checked");
+        }
+        ctx.st.add("setter-refused", j.setter_refused as u64);
+        ctx.st.add("commutation-pairs-checked", j.commuted as u64);
+        for c in &j.fields {
+            match c.as_str() {
+                "/" => ctx.st.count("roundtrip-field-with:/"),
+                "@" => ctx.st.count("roundtrip-field-with:@"),
+                "?" => ctx.st.count("roundtrip-field-with:?"),
+                "#" => ctx.st.count("roundtrip-field-with:#"),
+                "&" => ctx.st.count("roundtrip-field-with:&"),
+                "=" => ctx.st.count("roundtrip-field-with:="),
+                "%" => ctx.st.count("roundtrip-field-with:%"),
+                "+" => ctx.st.count("roundtrip-field-with:+"),
+                _ => ctx.st.count("roundtrip-field-with:space"),
+            }
+        }
+        if (j.ok && !h.calls.is_empty()) || j.refused {
+            ctx.st.nontrivial(fnv(format!("{tp}{h:?}").as_bytes()));
+        }
+        if j.ok && h.calls.len() >= 2 {
+            ctx.st.sample(|| json!({"type_parameter": tp, "history": h, "result": "built; accessors = last values set; string form parses back to the same fields"}));
+        }
+    }
+    if let Some(f) = f {
+        let (kind, tag) = (f.kind.clone(), f.tag.clone());
+        let calls = shrink_vec(&h.calls, &mut |cs| {
+            let hh = Hist { ty: h.ty.clone(), name: h.name.clone(), calls: cs.to_vec() };
+            judge_dyn(tp, &hh, commute).1.map_or(false, |g| g.kind == kind && g.tag == tag)
+        });
+        let hh = Hist { ty: h.ty.clone(), name: h.name.clone(), calls };
+        let g = judge_dyn(tp, &hh, commute).1.unwrap_or(f);
+        ctx.st.violation("C09.builder", g.signature("C09.builder", &format!("{hh:?}")), g.detail, json!({"type_parameter": tp, "history": hh, "commute": commute}));
+    }
+}
+
+pub fn run(ctx: &mut Ctx) {
+    // exhaustive part: all sequences of <= 2 calls over the universe; thorough adds all
+    // 3-call sequences over a reduced universe
+    for (tp, typed) in [("String", false), ("PackageType", true)] {
+        let calls = hist::universe_calls(typed);
+        let inits: Vec<(String, String)> = if typed {
+            crate::model::KNOWN_TYPES.iter().map(|t| (t.to_string(), "n".to_string())).collect()
+        } else {
+            vec![("t".into(), "n".into()), ("T.+-1".into(), "".into())]
+        };
+        let mut idx = 0u64;
+        let mut total = 0u64;
+        for (ty, name) in &inits {
+            for a in 0..=calls.len() {
+                for b in 0..=calls.len() {
+                    // index `len` means "no call" so that 0- and 1-call sequences are included once
+                    if a == calls.len() && b != calls.len() {
+                        continue;
+                    }
+                    idx += 1;
+                    total += 1;
+                    if !ctx.mine(idx) {
+                        continue;
+                    }
+                    let mut cs = Vec::new();
+                    if a < calls.len() {
+                        cs.push(calls[a].clone());
+                    }
+                    if b < calls.len() {
+                        cs.push(calls[b].clone());
+                    }
+                    let h = Hist { ty: ty.clone(), name: name.clone(), calls: cs };
+                    case(ctx, tp, &h, true);
+                }
+            }
+        }
+        if ctx.worker == 0 {
+            ctx.st.exhaustive.push(json!({"name": format!("all builder histories of <= 2 calls over the universe ({} call forms) x {} initial (type, name) pairs, {tp}", calls.len(), inits.len()), "size": total, "completed": true}));
+        }
+        if !ctx.quick() {
+            let reduced: Vec<Call> = calls.iter().enumerate().filter(|(i, _)| i % 4 == 0).map(|(_, c)| c.clone()).collect();
+            let mut total3 = 0u64;
+            for (ty, name) in inits.iter().take(if typed { 7 } else { 1 }) {
+                for a in &reduced {
+                    for b in &reduced {
+                        for c in &reduced {
+                            idx += 1;
+                            total3 += 1;
+                            if !ctx.mine(idx) {
+                                continue;
+                            }
+                            let h = Hist { ty: ty.clone(), name: name.clone(), calls: vec![a.clone(), b.clone(), c.clone()] };
+                            case(ctx, tp, &h, false);
+                        }
+                    }
+                }
+            }
+            if ctx.worker == 0 {
+                ctx.st.exhaustive.push(json!({"name": format!("all 3-call histories over a reduced universe ({} call forms), {tp}", reduced.len()), "size": total3, "completed": true}));
+            }
+        }
+    }
+    // random histories with hostile strings
+    let mut r = ctx.rng("c09.g4");
+    for _ in 0..ctx.share(250_000, 8_000_000) {
+        let h = hist::rand_hist(&mut r, false);
+        case(ctx, "String", &h, true);
+        let h = hist::rand_hist(&mut r, true);
+        case(ctx, "PackageType", &h, true);
+    }
+}
+
+pub fn replay(_monitor: &str, case: &Value) -> Result<Option<Fail>, String> {
+    let h: Hist = serde_json::from_value(case.get("history").cloned().unwrap_or(Value::Null)).map_err(|e| e.to_string())?;
+    let commute = case.get("commute").and_then(|v| v.as_bool()).unwrap_or(true);
+    Ok(judge_dyn(str_field(case, "type_parameter")?, &h, commute).1)
 }
